@@ -63,7 +63,7 @@
                     (if (char? (cdr x))
                         (cdr x)
                         (error "invalid record-separator, expected a char or one of 'lax or 'crlf" (cdr x)))))))
-            (csv-grammar-escape-char-set! grammar (cdr x))))
+            (csv-grammar-record-separator-set! grammar rec-sep)))
          ((comment-chars)
           (csv-grammar-comment-chars-set! grammar (cdr x)))
          ((quote-non-numeric?)
@@ -167,7 +167,7 @@
               (finish-row))
              (else
               (write-char ch out)
-              (lp acc (+ index 1) quoted? out))))
+              (lp acc index quoted? out))))
            ((and (eqv? ch #\newline)
                  (eq? (csv-grammar-record-separator grammar) 'lax))
             (finish-row))
